@@ -73,6 +73,15 @@ def corpus():
                    + [dict(op='remove_via', rule='/s', verb='UNLINK')] + _probe_all(['/s'], ['LINK', 'UNLINK', 'BREW'])
                    + [dict(op='remove_method', rule='/s', methods='REBIND'), dict(op='remove_via', rule='/s', verb='UNBIND', path='/s')]
                    + _probe_all(['/s'], ['BIND', 'UNBIND', 'REBIND', 'BREW']) + [dict(op='by_rule', rule='/s')]))
+    # the method argument as every kind of iterable, one-shot ones included, through Ombott.add_route / route
+    cs.append(dict(cmds=[dict(op='add', rule='/s', methods=['GET', 'POST'], h=1, mkind='gen'),
+                         dict(op='add', rule='/w/<x>', methods=['PUT', 'DELETE'], h=2, mkind='map', via='route_deco'),
+                         dict(op='add', rule='/a/b', methods=['GET'], h=3, mkind='iter', via='route_cb'),
+                         dict(op='add', rule='/a/b', methods=['POST', 'PUT'], h=4, mkind='dict_keys'),
+                         dict(op='add', rule='/a/b', methods=['DELETE'], h=5, mkind='set'),
+                         dict(op='add', rule='/s', methods=['PATCH', 'put'], h=6, mkind='tuple')]
+                   + _probe_all(['/s', '/w/7', '/a/b'], ['GET', 'POST', 'PUT', 'DELETE', 'PATCH', 'BREW'])
+                   + [dict(op='by_rule', rule=r) for r in ('/s', '/w/<x>', '/a/b')]))
     # HEAD registered explicitly wins over GET
     cs.append(dict(cmds=[dict(op='add', rule='/s', methods=['GET'], h=1), dict(op='add', rule='/s', methods=['HEAD'], h=2)]
                    + _probe_all(['/s'])))
